@@ -1,0 +1,20 @@
+// Verification hooks (compiled only with `--cfg mech_verif`): include-expansion event log.
+// Events: ("enter" | "exit" | "cycle", canonical path), in the order the expander produces them.
+use std::cell::RefCell;
+
+thread_local! {
+  static INCLUDE_LOG: RefCell<Vec<(&'static str, String)>> = RefCell::new(Vec::new());
+}
+
+pub fn include_event(kind: &'static str, path: &std::path::Path) {
+  INCLUDE_LOG.with(|l| {
+    let mut l = l.borrow_mut();
+    if l.len() < 100_000 {
+      l.push((kind, path.display().to_string()));
+    }
+  });
+}
+
+pub fn take_include_events() -> Vec<(&'static str, String)> {
+  INCLUDE_LOG.with(|l| std::mem::take(&mut *l.borrow_mut()))
+}
